@@ -206,6 +206,6 @@ for _o in (True, False):
         OBLIGATIONS.append(Ob("metric_%s_%s" % (_w, "orth" if _o else "nonorth"), _mk_sign(_o, _w), tier="quick", family="field reversal",
                               encodes=["hypnotoad.core.mesh:MeshRegion.calcMetric", "hypnotoad.core.mesh:MeshRegion.geometry2"],
                               desc="each metric output is invariant or exactly negated according to its tensor character", stubs=["as C02"], bounds="all reals"))
-    OBLIGATIONS.append(Ob("metric_psi_divide_twopi_%s" % ("orth" if _o else "nonorth"), _mk_scale(_o), tier="quick" if _o else "thorough", wall_s=240 if _o else 1500, family="field reversal",
+    OBLIGATIONS.append(Ob("metric_psi_divide_twopi_%s" % ("orth" if _o else "nonorth"), _mk_scale(_o), tier="quick" if _o else "thorough", wall_s=240 if _o else 3000, family="field reversal",
                           encodes=["hypnotoad.core.mesh:MeshRegion.calcMetric", "hypnotoad.core.mesh:MeshRegion.geometry2"],
                           desc="homogeneous outputs scale with the documented power of k when psi -> psi/k", stubs=["as C02"], bounds="k in [1.5, 8]"))
